@@ -2,6 +2,7 @@
 from __future__ import annotations
 
 from kfv.core import Ctx
+from kfv.rules import memo_rules as MEMO
 from kfv.rules import coh_rules as C
 from kfv.rules import assign_rules as A
 from kfv.rules import spmd_rules as S
@@ -38,3 +39,4 @@ def run(ctx: Ctx) -> None:
     ctx.do(A.rule_role_grp)
     ctx.do(TR.rule_clip_shard)
     ctx.do(C.rule_aff_avg)
+    ctx.do(MEMO.rule_memo)
